@@ -10,10 +10,12 @@ import (
 	"fmt"
 	"os"
 	"path/filepath"
+	"runtime"
 	"runtime/debug"
 	"sort"
 	"strings"
 	"sync"
+	"time"
 )
 
 type Tier string
@@ -276,11 +278,28 @@ func panicSite(st string) string {
 }
 
 // RunWorker executes this worker's slice of the case list.
+// workerHeapCap: healthy workers stay below 1 GiB.
+const workerHeapCap = 6 << 30
+
 func RunWorker(p *Property, tier Tier, seed int64, worker, n int, outDir string, only int) {
 	dir := scratchDir(fmt.Sprintf("verif-%s-%d-%d", p.ID, os.Getpid(), worker))
 	defer os.RemoveAll(dir)
 	c := newCtx(p, tier, seed, worker, n, dir)
 	total := p.Plan(tier, seed)
+	// memory guard: the sandbox has no memory limit, and a change to the code under test that makes an evaluation build
+	// an unbounded structure would take the machine down with it. A worker whose heap passes the cap dies like on any
+	// other fatal error (the driver reports the case it died in)
+	go func() {
+		var ms runtime.MemStats
+		for {
+			time.Sleep(500 * time.Millisecond)
+			runtime.ReadMemStats(&ms)
+			if ms.HeapAlloc > workerHeapCap {
+				fmt.Fprintf(os.Stderr, "fatal error: worker heap of %d MiB exceeds the cap of %d MiB (runaway allocation in the code under test)\n", ms.HeapAlloc>>20, uint64(workerHeapCap)>>20)
+				os.Exit(2)
+			}
+		}
+	}()
 	logf, _ := os.OpenFile(filepath.Join(outDir, fmt.Sprintf("worker-%d.log", worker)), os.O_CREATE|os.O_WRONLY|os.O_APPEND, 0644)
 	casesRun := 0
 	flush := func(done bool) {
